@@ -159,7 +159,37 @@ def run_case(a):
                     except ValueError:
                         pass
                 viol.append((kind, ctxlab, "hash seed %s: %s reads %s before its definition; order=%s" % (hs, c, r, order), hs))
-        return {"orders": len(orders), "viol": viol, "blocked": blocked, "runs": len(seeds), "files": files}
+        # (b) the project is edited and regenerated INTO THE SAME DIRECTORY: a type declared early in the old file gains a dependency on
+        #     one declared after it (and on a brand-new type); what the directory held before must not shape the new order
+        regen = 0
+        if viol == [] and orders and n >= 2:
+            first = [x[:-6] for x in sorted(orders)[0] if x.endswith("Schema") and x[:-6] in names]
+            pos = {nm: k for k, nm in enumerate(first)}
+            extra = []
+            for a_ in range(n):
+                for b_ in range(n):
+                    if a_ != b_ and names[a_] in pos and names[b_] in pos and pos[names[a_]] < pos[names[b_]] and (a_, b_) not in edges and acyclic(n, list(edges) + extra + [(a_, b_)]):
+                        extra.append((a_, b_))
+                        break
+                if len(extra) >= 2:
+                    break
+            edges2 = list(edges) + extra + [(0, n)]          # node n: the brand-new type, a dependency of the first node
+            files2, names2 = build(n + 1, edges2, list(ctxs) + [0] * (len(edges2) - len(edges)), enum_leaves, nfiles, "G", external, emit)
+            import shutil
+            shutil.rmtree(root + "/src", ignore_errors=True)
+            common.write_tree(root + "/src", files2)
+            for k, hs in enumerate(seeds[:2]):
+                out_dir = "out_%s" % hs          # holds the first generation made under this hash seed
+                g = proj.generate(cli, None, mode="zod", hash_seed=hs, root=root, out_name=out_dir, tag="c09", config=cfg, force=(k == 0))
+                if g.run.timed_out or g.run.rc != 0 or "types.ts" not in g.output.mods or g.output.mods["types.ts"].errors:
+                    continue
+                regen += 1
+                v2, order2 = scan(g.output)
+                for (c, r) in v2:
+                    viol.append(("struct-schema-before-dependency-after-regeneration-into-the-same-directory", "forced" if k == 0 else "non-forced",
+                                 "hash seed %s, %s regeneration after adding %s: %s reads %s before its definition; order=%s" % (hs, "forced" if k == 0 else "non-forced", extra + [(0, n)], c, r, order2), hs))
+            files = files2 if any(v_[0].endswith("same-directory") for v_ in viol) else files
+        return {"orders": len(orders), "viol": viol, "blocked": blocked, "runs": len(seeds), "files": files, "regen": regen}
     finally:
         common.rmtree(root)
 
@@ -227,6 +257,7 @@ def run(tier):
         v.case(key, nontrivial=len(job[3]) >= 1, sample={"nodes": job[2], "edges": job[3], "contexts": [CTX[c][0] for c in job[4]], "distinct_schema_orders": r["orders"]})
         v.count("process_runs", r["runs"])
         v.count("runs_blocked", r["blocked"])
+        v.count("regenerations_into_a_directory_holding_the_previous_output", r.get("regen", 0))
         if len(job) > 9 and job[9]:
             v.count("graphs_with_event_payload_nodes")
             if {j for (_, j) in job[3]} & set(job[9]):
